@@ -1423,3 +1423,35 @@ def unoption_filter(f):
     if n:
         f.rewrites.append(('R6', f'{n}x `opt.as_ref().filter(|w| P)` -> match (P verbatim; the closure sees a reference to the item)', ''))
     return f
+
+
+def project_on(f, start_re, tracked, why):
+    """R13 projection slice: the function body from the statement matching `start_re` to its end, keeping only the top-level statements that
+    mention one of the `tracked` names (and the tail expression); inside a kept `let X = { .. };` block the same projection applies.
+    The dropped statements only bind OTHER locals: every name they bound that a kept statement still mentions becomes a parameter of the slice
+    (an arbitrary value of its type).  Returns the list of dropped statement heads (for the evidence)."""
+    from vf.extract import _split_stmts
+    m = re.search(start_re, f.body)
+    if not m:
+        raise ExtractError(f'lost anchor in {f.qual}: projection start /{start_re}/')
+    inner = f.body[m.start():f.body.rstrip().rfind('}')]
+    pat = re.compile(r'(?<![.\w])(' + '|'.join(re.escape(t) for t in tracked) + r')\b')
+    dropped = []
+
+    def proj(block):
+        stmts = _split_stmts(block)
+        out = []
+        for k, st in enumerate(stmts):
+            last = k == len(stmts) - 1 and not st.rstrip().endswith(';')
+            if not (pat.search(st) or last):
+                dropped.append(' '.join(st.split())[:60])
+                continue
+            mb = re.match(r'(\s*let\s+[^=]+=\s*)\{(.*)\}(\s*;\s*)$', st, flags=re.S)
+            if mb and match_brace(st, st.index('{', len(mb.group(1)) - 1)) == st.rstrip().rstrip(';').rstrip().__len__() - 1:
+                out.append(mb.group(1) + '{' + proj(mb.group(2)) + '}' + mb.group(3))
+            else:
+                out.append(st)
+        return ''.join(out)
+    f.body = '{\n' + proj(inner) + '\n}'
+    f.rewrites.append(('R13', f'projection slice from /{start_re}/ on {sorted(tracked)}: {len(dropped)} statements binding other locals dropped', why))
+    return dropped
